@@ -2,9 +2,9 @@
 Helper lemmas for C18, third part (core-only): the generator terminates.
   * `gen_enough_fuel`: for every declaration list, option set and type there is an amount of fuel from which on the
     model never reports `nofuel` (the recursion of generateSchemaRefFor is bounded: along the parent chain every
-    declared struct is entered at most once, between two declared structs the recursion descends into the type);
-  * `gen_no_diverge`: `diverge` (generateCycleSchemaRef recursing forever) only occurs on types that contain a
-    self-recursive container type (`RecContainer`).
+    declared struct is entered at most once, between two declared structs the recursion descends into the type).
+    Since 0916db1 generateCycleSchemaRef itself is structurally recursive in the model (`cycleSch` is total): there is no
+    other way not to terminate.
 -/
 import KinModel.Lemmas.C18Gen
 set_option linter.unusedSectionVars false
@@ -493,203 +493,5 @@ theorem gen_enough_fuel (t : GoType) (fuel : Nat) (h : enoughFuel Δ t ≤ fuel)
   exact stmt_all Δ o Δ.length [] t (unvisited_le Δ []) "_root" {} fuel h
 
 end Fin
-
-/-! ### `diverge` needs a self-recursive container type -/
-theorem cycleSch_none (o : Opts) : ∀ (e : GoType), cycleSch o e = none → hasRecs e = true
-  | .ptr t, h => by simp only [cycleSch] at h; simp only [hasRecs]; exact cycleSch_none o t h
-  | .slice t, h => by
-      simp only [cycleSch, Option.map_eq_none_iff] at h; simp only [hasRecs]; exact cycleSch_none o t h
-  | .map t, h => by
-      simp only [cycleSch, Option.map_eq_none_iff] at h; simp only [hasRecs]; exact cycleSch_none o t h
-  | .defd n t, h => by
-      simp only [cycleSch] at h
-      split at h
-      · simp only [hasRecs]; exact cycleSch_none o t h
-      · cases h
-  | .recs _, _ => by simp [hasRecs]
-  | .bool, h | .int _, h | .float _, h | .string, h | .bytes, h | .time, h | .named _, h | .struct _, h | .array _ _, h => by
-      simp [cycleSch] at h
-
-theorem hasRecs_strip : ∀ (t : GoType), hasRecs (stripPtr t) = hasRecs t
-  | .ptr t => by simp only [stripPtr, hasRecs]; exact hasRecs_strip t
-  | .bool | .int _ | .float _ | .string | .bytes | .time | .slice _ | .map _ | .struct _ | .named _
-  | .defd _ _ | .array _ _ | .recs _ => by simp [stripPtr]
-
-mutual
-theorem hasRecs_flatFs : ∀ (fs : Fields) (d : Nat) (p : List Nat) (i : Nat), hasRecsFs fs = false →
-    ∀ c, c ∈ flatFs d p i fs → hasRecs c.ty = false
-  | [], _, _, _, _, c, hc => by simp [flatFs] at hc
-  | (m, t) :: r, d, p, i, h, c, hc => by
-      simp only [hasRecsFs, Bool.or_eq_false_iff] at h
-      simp only [flatFs, List.mem_append] at hc
-      rcases hc with hc | hc
-      · split at hc
-        · cases hc
-        · split at hc
-          · split at hc
-            · exact hasRecs_flatEmb t (d + 1) (p ++ [i]) true h.1 c hc
-            · split at hc
-              · simp only [List.mem_singleton] at hc; subst hc; exact h.1
-              · cases hc
-          · split at hc
-            · cases hc
-            · simp only [List.mem_singleton] at hc; subst hc; exact h.1
-      · exact hasRecs_flatFs r d p (i + 1) h.2 c hc
-theorem hasRecs_flatEmb : ∀ (t : GoType) (d : Nat) (p : List Nat) (ap : Bool), hasRecs t = false →
-    ∀ c, c ∈ flatEmb d p ap t → hasRecs c.ty = false
-  | .struct fs, d, p, ap, h, c, hc => by
-      simp only [flatEmb] at hc
-      exact hasRecs_flatFs fs d p 0 (by simpa [hasRecs] using h) c hc
-  | .ptr t, d, p, ap, h, c, hc => by
-      simp only [flatEmb] at hc
-      split at hc
-      · exact hasRecs_flatEmb t d p false (by simpa [hasRecs] using h) c hc
-      · cases hc
-  | .bool, _, _, _, _, _, hc | .int _, _, _, _, _, _, hc | .float _, _, _, _, _, _, hc | .string, _, _, _, _, _, hc
-  | .bytes, _, _, _, _, _, hc | .time, _, _, _, _, _, hc | .slice _, _, _, _, _, _, hc | .map _, _, _, _, _, _, hc
-  | .named _, _, _, _, _, _, hc | .defd _ _, _, _, _, _, _, hc | .array _ _, _, _, _, _, _, hc
-  | .recs _, _, _, _, _, _, hc => by simp [flatEmb] at hc
-end
-
-theorem finish_nd {t : GoType} {r : R × St} (h : r.1 ≠ .diverge) : (finish t r).1 ≠ .diverge := by
-  obtain ⟨x, σ⟩ := r
-  cases x <;> simp_all [finish]
-theorem custom_nd {o : Opts} {nm : String} {r : R × St} (h : r.1 ≠ .diverge) : (custom o nm r).1 ≠ .diverge := by
-  obtain ⟨x, σ⟩ := r
-  cases x <;> simp_all [custom]
-  split <;> simp
-theorem childOf_nd {o : Opts} {e : GoType} {r : R × St} (he : hasRecs e = false) (h : r.1 ≠ .diverge) :
-    (childOf o e r).1 ≠ .fail .diverge := by
-  obtain ⟨x, σ⟩ := r
-  cases x <;> simp_all [childOf]
-  split
-  · simp
-  · cases hc : cycleSch o e with
-    | some s => simp
-    | none => have := cycleSch_none o e hc; rw [he] at this; cases this
-theorem sliceOf_nd {nl : Bool} {q : Child × St} (h : q.1 ≠ .fail .diverge) : (sliceOf nl q).1 ≠ .diverge := by
-  obtain ⟨c, σ⟩ := q
-  cases c with
-  | some s => simp [sliceOf]
-  | skip => simp [sliceOf]
-  | fail x => cases x <;> simp_all [sliceOf, Fail.toR]
-theorem mapOf_nd {nl : Bool} {q : Child × St} (h : q.1 ≠ .fail .diverge) : (mapOf nl q).1 ≠ .diverge := by
-  obtain ⟨c, σ⟩ := q
-  cases c with
-  | some s => simp [mapOf]
-  | skip => simp [mapOf]
-  | fail x => cases x <;> simp_all [mapOf, Fail.toR]
-theorem structOut_nd (o : Opts) (top : Bool) (n : String) (s : Sch) (σ : St) : (structOut o top n s σ).1 ≠ .diverge := by
-  unfold structOut; split <;> simp
-theorem structEnd_nd {o : Opts} {top : Bool} {nm : String} {nl : Bool} {n : String} {a : FAcc}
-    (h : a.fail ≠ some .diverge) : (structEnd o top nm nl n a).1 ≠ .diverge := by
-  unfold structEnd
-  split
-  · rename_i r hr
-    cases r <;> simp_all [Fail.toR]
-  · split
-    · simp
-    · simp
-    · exact structOut_nd _ _ _ _ _
-theorem stepField_nd {o : Opts} {c : Cand} {a : FAcc} {r : R × St} (he : hasRecs c.ty = false)
-    (ha : a.fail ≠ some .diverge) (hr : r.1 ≠ .diverge) : (stepField o c a r).fail ≠ some .diverge := by
-  have := childOf_nd (o := o) he hr
-  unfold stepField
-  generalize childOf o c.ty r = q at this ⊢
-  obtain ⟨ch, σ'⟩ := q
-  cases ch with
-  | some s => exact ha
-  | skip => exact ha
-  | fail x =>
-    simp only
-    cases hf : a.fail with
-    | some y => simp only; rw [hf] at ha; exact ha
-    | none => simp only; intro he'; cases he'; exact this rfl
-
-theorem gen_nd (Δ : Decls) (o : Opts) (hΔ : ∀ d, d ∈ Δ → hasRecsFs d.2 = false) : ∀ (f : Nat),
-    (∀ ps nm t σ, hasRecs t = false → (genRef Δ o f ps nm t σ).1 ≠ .diverge) ∧
-    (∀ ps top nm nl b σ, hasRecs b = false → (genBody Δ o f ps top nm nl b σ).1 ≠ .diverge) ∧
-    (∀ ps cs a, (∀ c, c ∈ cs → hasRecs c.ty = false) → a.fail ≠ some .diverge →
-      (genFields Δ o f ps cs a).fail ≠ some .diverge)
-  | 0 => by
-      refine ⟨fun _ _ _ _ _ => by simp [genRef], fun _ _ _ _ _ _ _ => by simp [genBody], ?_⟩
-      intro ps cs a _ ha
-      cases cs <;> simp [genFields]
-      exact ha
-  | f + 1 => by
-      obtain ⟨ihR, ihB, ihF⟩ := gen_nd Δ o hΔ f
-      refine ⟨?_, ?_, ?_⟩
-      · intro ps nm t σ ht
-        simp only [genRef]
-        split
-        · simp
-        · split
-          · simp
-          · exact finish_nd (ihB _ _ _ _ _ _ (by rw [hasRecs_strip]; exact ht))
-      · intro ps top nm nl b σ hb
-        cases b with
-        | bool | int _ | float _ | string | bytes | time | array _ _ => simp only [genBody]; exact custom_nd (by simp)
-        | ptr _ => simp [genBody]
-        | recs _ => simp [hasRecs] at hb
-        | defd n t =>
-          simp only [genBody]
-          split
-          · simp
-          · exact ihB _ _ _ _ _ _ (by simpa [hasRecs] using hb)
-        | slice e =>
-          simp only [genBody]
-          have he : hasRecs e = false := by simpa [hasRecs] using hb
-          split
-          · exact custom_nd (by simp)
-          · exact custom_nd (sliceOf_nd (childOf_nd he (ihR _ _ _ _ he)))
-        | map e =>
-          simp only [genBody]
-          have he : hasRecs e = false := by simpa [hasRecs] using hb
-          exact custom_nd (mapOf_nd (childOf_nd he (ihR _ _ _ _ he)))
-        | struct fs =>
-          simp only [genBody]
-          split
-          · simp
-          · apply structEnd_nd
-            apply ihF
-            · intro c hc
-              exact hasRecs_flatFs fs 0 [] 0 (by simpa [hasRecs] using hb) c (mem_gcands hc)
-            · simp
-        | named n =>
-          simp only [genBody]
-          split
-          · simp
-          · apply structEnd_nd
-            apply ihF
-            · intro c hc
-              cases hl : lookup n Δ with
-              | none => simp [hl, gcands, flat, flatFs, sortCands] at hc
-              | some fs =>
-                simp only [hl, Option.getD] at hc
-                exact hasRecs_flatFs fs 0 [] 0 (hΔ (n, fs) (lookup_mem hl)) c (mem_gcands hc)
-            · simp
-      · intro ps cs a hcs ha
-        cases cs with
-        | nil => simp only [genFields]; exact ha
-        | cons c cs =>
-          simp only [genFields]
-          apply ihF ps cs _ (fun c' hc' => hcs c' (List.mem_cons_of_mem _ hc'))
-          exact stepField_nd (hcs c (by simp)) ha (ihR _ _ _ _ (hcs c (by simp)))
-
-theorem gen_no_diverge (Δ : Decls) (o : Opts) (t : GoType) (h : ¬ RecContainer Δ t) (fuel : Nat) :
-    (genRoot Δ o fuel t).1 ≠ .diverge := by
-  unfold RecContainer at h
-  have h' : (hasRecs t || Δ.any (fun d => hasRecsFs d.2)) = false := by
-    cases hb : (hasRecs t || Δ.any (fun d => hasRecsFs d.2)) with
-    | false => rfl
-    | true => exact absurd hb h
-  simp only [Bool.or_eq_false_iff] at h'
-  have hΔ : ∀ d, d ∈ Δ → hasRecsFs d.2 = false := by
-    have := h'.2
-    rw [List.any_eq_false] at this
-    intro d hd
-    simpa using this d hd
-  unfold genRoot
-  exact (gen_nd Δ o hΔ fuel).1 [] "_root" t {} h'.1
 
 end KinModel.Gen3
